@@ -25,8 +25,6 @@ def query(o, form, q):
         if q == "idx":
             if form == "path":
                 return "n/a"
-            if form == "seq" and o.var_mapping_inverse is None:
-                o.get_num_variables()
             out = []
             for u in tuple_box(o, form):
                 try:
